@@ -122,6 +122,7 @@ G3_poly = [
     r('Polygon2D.rotate', [POLY2, Q, P2]),
     r('Polygon2D.reflect', [POLY2, V2, P2]),
     r('Polygon2D.scale', [POLY2, Q, P2]),
+    r('Polygon2D.is_convex', [POLY2]),
 ]
 LAYERS.append(('G3_poly', G3_poly))
 
